@@ -8,8 +8,6 @@ CONSTANTS
   Parts = 1
 SPECIFICATION Spec
 INVARIANT InvBounded
-INVARIANT Collect
 INVARIANT InvNoDeadlock
 PROPERTY P_C18_returns
-POSTCONDITION Post
 CHECK_DEADLOCK FALSE
